@@ -176,7 +176,7 @@ func (ex *Exec) newTokSrc(k int, vocab []string) Value {
 	var bytes []Value
 	for i := 0; i < k; i++ {
 		sel := ex.freshVar("tok", 8)
-		ex.inputs = append(ex.inputs, inputRec{Kind: "tok", Terms: []*Term{sel}})
+		ex.inputs = append(ex.inputs, inputRec{Kind: "tok", Terms: []*Term{sel}, Table: vocab})
 		ex.addPC(ts.Bin(OpULt, sel, ts.Const(uint64(len(vocab)), 8)))
 		for j, e := range m.entries {
 			if !e.ok {
